@@ -338,7 +338,8 @@ def normalise_case(c):
             if k_ not in seen:
                 seen.add(k_)
                 uniq.append((k_, what_))
-        c["faults"] = uniq
+        # ... in the order of the calls they belong to (a driver that exchanges entries of its table twice does so in time order)
+        c["faults"] = sorted(uniq, key=lambda kw: kw[0])
     return c
 
 
